@@ -362,6 +362,21 @@ class Facts:
             if e[0] == "unop" and e[1] == "Neg":
                 lo, hi = self.range(e[2], depth + 1)
                 return (None if hi is None else -hi), (None if lo is None else -lo)
+            if e[0] == "call" and len(e[3]) == 1 and e[1].startswith("core::"):
+                nm = e[1].split("::")[-1]
+                if nm in ("from", "into") and "core::convert::num" in str(e[2]):
+                    lo, hi = self.range(e[3][0], depth + 1)         # lossless integer widening
+                    import re as _re
+                    m_ = _re.search(r"From<([iu](?:8|16|32|64|128|size))>", str(e[2]))
+                    src = _TYRANGE.get(m_.group(1)) if m_ else None
+                    if src:
+                        lo = src[0] if lo is None else max(lo, src[0])
+                        hi = src[1] if hi is None else min(hi, src[1])
+                    return lo, hi
+                if nm in ("unsigned_abs", "abs"):
+                    lo, hi = self.range(e[3][0], depth + 1)
+                    if lo is not None and hi is not None:
+                        return (lo, hi) if lo >= 0 else (-hi, -lo) if hi <= 0 else (0, max(-lo, hi))
             core = e[1] if e[0] == "binop" else (e[1][1].replace("WithOverflow", "") if e[0] == "field" and e[2] == "0" and e[1][0] == "binop" else None)
             ops = (e[2], e[3]) if e[0] == "binop" else ((e[1][2], e[1][3]) if core else None)
             if core in ("Add", "Sub", "Mul", "Div", "Rem", "BitAnd", "Shr") and ops:
